@@ -1,0 +1,23 @@
+//go:build verif
+
+package listener
+
+import "net"
+
+// VerifNewListener builds a Listener on top of a listener supplied by the
+// caller: what New does after net.Listen.
+func VerifNewListener(root net.Listener, config Config) *Listener {
+	return &Listener{
+		root:         root,
+		bufferSize:   1024,
+		errorHandler: func(_ error) bool { return true },
+		closing:      make(chan struct{}),
+		readTimeout:  noTimeout,
+		config:       config,
+	}
+}
+
+// VerifNewConn wraps a connection the way the multiplexer does.
+func VerifNewConn(c net.Conn, flushRate int) *Conn {
+	return newConn(c, flushRate)
+}
